@@ -368,6 +368,9 @@ type Gen struct {
 	issued    map[string][]string
 	// GoExtends allows extensions that carry the @go directive.
 	GoExtends bool
+	// dirLit maps a custom directive to a literal for its input-object argument
+	// "o" ("" = the directive has no such argument).
+	dirLit map[string]string
 }
 
 func (g *Gen) fresh(prefix string) string {
@@ -492,6 +495,14 @@ func (g *Gen) dirUse(exclude []string) string {
 		return ""
 	}
 	d := cands[g.T.Draw(len(cands))]
+	if lit := g.dirLit[d]; lit != "" && g.T.Bool(1, 2) {
+		// the input-object argument (coerced during validation: the input type's
+		// field defaults are filled in)
+		if g.T.Bool(1, 2) {
+			return fmt.Sprintf("@%s(o: %s)", d, lit)
+		}
+		return fmt.Sprintf("@%s(x: %d, o: %s)", d, g.T.Draw(9), lit)
+	}
 	switch g.T.Draw(5) {
 	case 0, 1:
 		return fmt.Sprintf("@%s(x: %d)", d, g.T.Draw(9))
@@ -501,6 +512,38 @@ func (g *Gen) dirUse(exclude []string) string {
 		return "@" + d + "(x: null)"
 	}
 	return "@" + d
+}
+
+// inputLiteral builds an input-object literal that gives every required field
+// of the input type a value (ok is false when a required field has a type the
+// generator cannot write a value for).
+func (g *Gen) inputLiteral(in *TInfo) (string, bool) {
+	var parts []string
+	for _, f := range in.Fields {
+		typ := f.Type
+		if !strings.HasSuffix(typ, "!") {
+			continue
+		}
+		base := strings.Trim(typ, "[]!")
+		var v string
+		switch base {
+		case "Int":
+			v = "1"
+		case "Float":
+			v = "1.5"
+		case "String", "ID":
+			v = `"s"`
+		case "Boolean":
+			v = "true"
+		default:
+			return "", false
+		}
+		for i := 0; i < strings.Count(typ, "["); i++ {
+			v = "[" + v + "]"
+		}
+		parts = append(parts, f.Name+": "+v)
+	}
+	return "{" + strings.Join(parts, ", ") + "}", true
 }
 
 func (g *Gen) fields(n int) []FieldSpec {
@@ -640,6 +683,30 @@ func (g *Gen) Valid() Fragment {
 			s := &TypeSpec{Kind: "directive", Name: g.fresh("d"),
 				Fields:  []FieldSpec{{Name: "x", Type: &TExpr{Name: "Int"}, Default: fmt.Sprint(1 + g.T.Draw(5))}},
 				Members: []string{"OBJECT", "FIELD_DEFINITION", "ENUM", "UNION", "INPUT_OBJECT", "INTERFACE", "SCALAR", "ENUM_VALUE", "SCHEMA", "ARGUMENT_DEFINITION", "INPUT_FIELD_DEFINITION"}}
+			if g.T.Bool(1, 2) {
+				// a second argument of an input-object type (already loaded or
+				// defined earlier in this document), sometimes with a default
+				var ins []*TInfo
+				var lits []string
+				for _, in := range g.all("input") {
+					if lit, ok := g.inputLiteral(in); ok {
+						ins = append(ins, in)
+						lits = append(lits, lit)
+					}
+				}
+				if len(ins) > 0 {
+					k := g.T.Draw(len(ins))
+					fs := FieldSpec{Name: "o", Type: &TExpr{Name: ins[k].Name}}
+					if g.T.Bool(1, 2) {
+						fs.Default = lits[k]
+					}
+					s.Fields = append(s.Fields, fs)
+					if g.dirLit == nil {
+						g.dirLit = map[string]string{}
+					}
+					g.dirLit[s.Name] = lits[k]
+				}
+			}
 			return Fragment{Kind: "new_directive", Text: s.SDL(), Spec: s}
 		case 8, 9:
 			t := g.pickExisting("object")
